@@ -7,6 +7,7 @@ from ..rules import W, match
 from ..spec import P, H2, le, be
 
 EXPLANATION = """
+[ABSTRACT, shared with C03] point_scalar_mul(k, P) is k*P in the abstract domain of multiples for boundary scalars (0, 1, N-1, N, N+1, 2^k +- 1 ...), point_add's case split.
 Obligations computed from ecmath.sign / ecmath.verify / utils.der_encode_sig / der_decode_sig / sig on every run:
 [PROV] the scalar multiplied with G to give r, and the scalar inverted in s, are the same term and derive only from a
 CSPRNG draw (secrets.*, os.urandom) made inside the retry loop -- no parameter, constant, clock, PRNG or hash flows in.
@@ -144,6 +145,10 @@ def run(ctx):
                     tm.show(dig[0].value)[:160] if dig else ""), example="digest >= n, e.g. n + 1")
 
     check_der(ctx)
+    # shared with C03/C02: R = kG and the self-verification clause stand on the scalar-multiple abstraction and the case split of point_add
+    from . import c03
+    c03.check_scalar_mul(ctx, "C01.9")
+    c03.check_point_add(ctx, "C01.9", "C01.9")
 
     # ---- sig(): modes
     fsig = ctx.fn("bits.utils.sig")
